@@ -112,6 +112,15 @@ func c18Hook(o *Out, kind string, ih, pid []byte, prob float32, maxd int, modmin
 	iOut, mOut := int64(resp.Interval), int64(resp.MinInterval)
 	resp.Interval, resp.MinInterval = respCopy.Interval, respCopy.MinInterval
 	same := herr == nil && nctx == ctx && reflect.DeepEqual(req, reqCopy) && reflect.DeepEqual(resp, respCopy)
+	{
+		// ... and a scrape passes through the hook untouched
+		sreq := &bittorrent.ScrapeRequest{InfoHashes: []bittorrent.InfoHash{bittorrent.InfoHashFromBytes(ih)}}
+		sresp := &bittorrent.ScrapeResponse{Files: []bittorrent.Scrape{{InfoHash: bittorrent.InfoHashFromBytes(ih), Complete: 3, Incomplete: 4, Snatches: 1}}}
+		sreqC := &bittorrent.ScrapeRequest{InfoHashes: []bittorrent.InfoHash{bittorrent.InfoHashFromBytes(ih)}}
+		srespC := &bittorrent.ScrapeResponse{Files: []bittorrent.Scrape{{InfoHash: bittorrent.InfoHashFromBytes(ih), Complete: 3, Incomplete: 4, Snatches: 1}}}
+		sctx, serr := h.HandleScrape(ctx, sreq, sresp)
+		same = same && serr == nil && sctx == ctx && reflect.DeepEqual(sreq, sreqC) && reflect.DeepEqual(sresp, srespC)
+	}
 	req2, resp2 := mk(51413, 12345)
 	_, _ = h.HandleAnnounce(ctx, req2, resp2)
 	iOut2 := int64(resp2.Interval)
